@@ -694,6 +694,9 @@ coap_replace_percents(coap_optlist_t *optlist) {
   size_t i;
   size_t o = 0;
 
+  if (!optlist)
+    return;
+
   for (i = 0; i < optlist->length; i++) {
     if (optlist->data[i] == '%' && optlist->length - i >= 3) {
       optlist->data[o] = (hexchar_to_dec(optlist->data[i+1]) << 4) +
